@@ -117,6 +117,10 @@ func (p *Point) Satisfiable() bool { return len(p.Cands) > 0 }
 // ResolveTagValue lets a check resolve placeholders in the value part of a tag before the model
 // interprets it (identity by default).
 // The default assumes an empty configuration: ${key:default} gives the default, ${key} nothing.
+// AdjustPoint lets a check mirror what a user post-processor of its scenario does to a point's arguments (through
+// the public Property.SetArg / AddArg) before the matching processors run.
+var AdjustPoint func(p *Point)
+
 var ResolveTagValue = func(s string) string {
 	for i := 0; i < 100; i++ {
 		end := strings.Index(s, "}")
@@ -200,6 +204,9 @@ func Points(holder *Comp, pop []*Comp) []*Point {
 				}
 				p := &Point{Holder: holder, Path: idx, Field: f, Tag: tag, Settable: true}
 				p.Val, p.Args = ParseTag(tv)
+				if AdjustPoint != nil {
+					AdjustPoint(p)
+				}
 				p.Val = ResolveTagValue(p.Val)
 				p.Required = !IsOptional(p.Args)
 				p.Multi = f.Type.Kind() == reflect.Slice
